@@ -81,7 +81,7 @@ var active *Sched
 
 // New creates a schedule over fns.
 func New(fns []func(), decisions []uint32, switchPermille int) *Sched {
-	s := &Sched{Decisions: decisions, SwitchPermille: switchPermille, baton: -1, MaxSteps: 200000}
+	s := &Sched{Decisions: decisions, SwitchPermille: switchPermille, baton: -1, MaxSteps: 20000000}
 	for i, f := range fns {
 		s.tasks = append(s.tasks, &task{id: i, fn: f, doneCh: make(chan struct{})})
 	}
@@ -401,6 +401,7 @@ func (s *Sched) Run() {
 	sync.VerifBlocked = s.syncBlocked
 	os.VerifPre = s.fsPoint
 	os.VerifPost = func(*os.VerifEvent) {}
+	runtime.VerifSetSchedHook(s.statePoint)
 	for _, t := range s.tasks {
 		go s.taskMain(t)
 	}
@@ -418,6 +419,7 @@ func (s *Sched) Run() {
 	}
 	sync.VerifTaskOf, sync.VerifPoint, sync.VerifBlocked = nil, nil, nil
 	os.VerifPre, os.VerifPost = nil, nil
+	runtime.VerifSetSchedHook(nil)
 	active = nil
 }
 
@@ -459,6 +461,16 @@ func (s *Sched) syncPoint(op string, addr unsafe.Pointer) {
 
 //go:norace
 func (s *Sched) syncBlocked(op string, addr unsafe.Pointer) { s.point("blocked-"+op, addr, addr) }
+
+// statePoint: entry of a function of the module under test that touches mutated package state
+// (inserted by harness/cmd/instr).
+//
+//go:norace
+func (s *Sched) statePoint() {
+	if runtime.VerifCanYield() && s.isTask(runtime.VerifGoid()) {
+		s.point("state", nil, nil)
+	}
+}
 
 //go:norace
 func (s *Sched) fsPoint(ev *os.VerifEvent) os.VerifAction {
